@@ -1,0 +1,52 @@
+//go:build verif
+
+package config
+
+import (
+	"go/types"
+
+	"github.com/jmattheis/goverter/method"
+)
+
+// VerifParseCommon exposes parseCommon to the verification harness.
+func VerifParseCommon(c *Common, cmd, rest string) (bool, error) {
+	return parseCommon(c, cmd, rest)
+}
+
+// VerifConverter creates a converter the way initConverter does for the given kind,
+// without needing loaded packages.
+func VerifConverter(variables bool, workDir string) (*Converter, func(lines RawLines, source string) error, func(lines RawLines) (*Method, error)) {
+	c := &Converter{}
+	if variables {
+		c.ConverterConfig = DefaultConfigVariables
+	} else {
+		c.ConverterConfig = DefaultConfigInterface
+		c.typ = types.NewNamed(types.NewTypeName(0, nil, "Converter", nil), types.NewInterfaceType(nil, nil), nil)
+		c.Name = "ConverterImpl"
+	}
+	ctx := &context{WorkDir: workDir}
+	convLines := func(lines RawLines, source string) error {
+		return parseConverterLines(ctx, c, source, lines)
+	}
+	methLines := func(lines RawLines) (*Method, error) {
+		m := &Method{
+			Common:      c.Common,
+			Fields:      map[string]*FieldMapping{},
+			Location:    lines.Location,
+			EnumMapping: &EnumMapping{Map: map[string]string{}},
+			localOpts:   method.LocalOpts{Context: map[string]bool{}},
+		}
+		for _, value := range lines.Lines {
+			if err := parseMethodLine(ctx, c, m, value); err != nil {
+				return m, formatLineError(lines, "method", value, err)
+			}
+		}
+		return m, nil
+	}
+	return c, convLines, methLines
+}
+
+// VerifMethodExtras exposes the unexported parts of a parsed method.
+func VerifMethodExtras(m *Method) (updateParam string, contexts map[string]bool) {
+	return m.updateParam, m.localOpts.Context
+}
